@@ -24,6 +24,7 @@ type ConnCase struct {
 	Answer []byte `json:"answer"` // bytes the server answers the CONNECT with (nil: none)
 	Then   string `json:"then"`   // "" | close | silence
 	Desc   string `json:"desc"`
+	Split  int    `json:"split,omitempty"` // the answer is sent in two TCP writes, split after this many bytes, 60 ms apart
 }
 
 func libGoroutinesGone(d time.Duration) []census.G {
@@ -64,7 +65,13 @@ func runConn(c ConnCase) (fail string, classes []string) {
 		return fmt.Sprintf("the client did not send a well-formed CONNECT first: %v (stream error %v)", err, srv.StreamErr()), nil
 	}
 	if len(c.Answer) > 0 {
-		srv.SendRaw(c.Answer)
+		if c.Split > 0 && c.Split < len(c.Answer) {
+			srv.SendRaw(c.Answer[:c.Split])
+			time.Sleep(60 * time.Millisecond)
+			srv.SendRaw(c.Answer[c.Split:])
+		} else {
+			srv.SendRaw(c.Answer)
+		}
 	}
 	if c.Then == "close" {
 		srv.Close()
@@ -129,6 +136,11 @@ func connCases() []ConnCase {
 			cs = append(cs, ConnCase{Answer: []byte{0x20, 2, sp, code}, Desc: fmt.Sprintf("CONNACK sp=%d code=%d", sp, code)})
 		}
 	}
+	for code := byte(0); code <= 5; code++ {
+		for split := 1; split <= 3; split++ {
+			cs = append(cs, ConnCase{Answer: []byte{0x20, 2, 0, code}, Split: split, Desc: fmt.Sprintf("CONNACK code=%d arriving in two segments (split after byte %d)", code, split)})
+		}
+	}
 	cs = append(cs,
 		ConnCase{Answer: []byte{0x20, 2, 0, 6}, Desc: "CONNACK with return code 6"},
 		ConnCase{Answer: []byte{0x20, 2, 2, 0}, Desc: "CONNACK with reserved acknowledge flags"},
@@ -181,7 +193,7 @@ func TestC20Connect(t *testing.T) {
 		}
 	}
 	rec.Exhaustive(true)
-	rec.Set("exhaustive_space_connect", "CONNACK code 0-5 x SessionPresent 0/1, six malformed CONNACK variants, three other packet types instead of CONNACK, close without answer, silence until the connect timeout")
+	rec.Set("exhaustive_space_connect", "CONNACK code 0-5 x SessionPresent 0/1, code 0-5 x fragmentation at every split point, six malformed CONNACK variants, three other packet types instead of CONNACK, close without answer, silence until the connect timeout")
 }
 
 // ---- C20 dispatch part ------------------------------------------------------------------
